@@ -450,3 +450,307 @@ Proof.
   - intros d' cr'. unfold read_line, line_fuel. rewrite Nat.add_succ_r.
     apply (read_line_at_eof RInv up_r RInv_pos RInv_end RInv_setpos up_r_setpos RInv_shift); assumption.
 Qed.
+
+(* ------------------------------------------------------------------ the mmap back end *)
+(* segment [a, b) of the file *)
+Definition seg (X : list Z) (a b : nat) : list Z := firstn (b - a) (skipn a X).
+
+Lemma seg_length X a b : a <= b -> b <= length X -> length (seg X a b) = b - a.
+Proof. intros H1 H2. unfold seg. rewrite firstn_length, skipn_length. lia. Qed.
+
+Lemma seg_to_end X a : seg X a (length X) = skipn a X.
+Proof. unfold seg. apply firstn_all2. rewrite skipn_length. lia. Qed.
+
+Lemma skipn_seg X a b k : skipn k (seg X a b) = seg X (a + k) b.
+Proof.
+  unfold seg. rewrite skipn_firstn_comm. rewrite <- skipn_skipn'. f_equal. lia.
+Qed.
+
+Lemma seg_app X a b c : a <= b -> b <= c -> c <= length X -> seg X a c = seg X a b ++ seg X b c.
+Proof.
+  intros H1 H2 H3. unfold seg.
+  rewrite <- (firstn_skipn (b - a) (skipn a X)) at 1.
+  rewrite firstn_app. rewrite firstn_length, skipn_length.
+  replace (Nat.min (b - a) (length X - a)) with (b - a) by lia.
+  rewrite firstn_firstn. replace (Nat.min (c - a) (b - a)) with (b - a) by lia.
+  f_equal. rewrite <- skipn_skipn'. replace (a + (b - a)) with b by lia. f_equal. lia.
+Qed.
+
+Lemma firstn_seg X a b n : n <= b - a -> firstn n (seg X a b) = firstn n (skipn a X).
+Proof. intros H. unfold seg. rewrite firstn_firstn. f_equal. lia. Qed.
+
+Lemma align_facts page moff pos : 1 <= page -> moff mod page = 0 ->
+  let ig := (pos + moff) mod page in
+  ig < page /\ ig <= pos /\ (pos + moff - ig) mod page = 0 /\ (pos <> ig -> moff + page <= pos + moff - ig).
+Proof.
+  intros Hp Hm ig.
+  assert (Hq : moff = (moff / page) * page).
+  { pose proof (Nat.div_mod moff page). lia. }
+  assert (Hig : ig = pos mod page).
+  { unfold ig. rewrite Hq. apply Nat.mod_add. lia. }
+  pose proof (Nat.mod_upper_bound pos page) as Hub.
+  pose proof (Nat.div_mod pos page) as Hdm.
+  assert (Hle : pos mod page <= pos) by (apply Nat.mod_le; lia).
+  rewrite Hig. repeat split; try lia.
+  - replace (pos + moff - pos mod page) with ((pos / page + moff / page) * page) by nia.
+    apply Nat.mod_mul. lia.
+  - intros Hne. assert (1 <= pos / page).
+    { destruct (pos / page) eqn:E; [|lia]. exfalso. apply Hne. lia. }
+    nia.
+Qed.
+
+Definition up_m (s : fp) : list Z := skipn (fp_moff s + length (fp_buf s)) (fp_file s).
+
+Definition MInv (s : fp) : Prop :=
+  fp_fallback s = false /\ fp_mapped s = true /\ 1 <= fp_page s /\ fp_page s <= fp_cap s /\
+  fp_moff s mod fp_page s = 0 /\
+  fp_buf s = seg (fp_file s) (fp_moff s) (fp_moff s + length (fp_buf s)) /\
+  fp_moff s + length (fp_buf s) <= length (fp_file s) /\
+  fp_pos s <= length (fp_buf s) /\
+  (fp_at_end s = true -> fp_moff s + length (fp_buf s) = length (fp_file s)) /\
+  (fp_at_end s = false -> length (fp_buf s) = fp_cap s /\ fp_moff s + fp_cap s < length (fp_file s)).
+
+(* what a window [mo, mo+ms) looks like from desired_begin = db on, given the old window [moff, e) *)
+Lemma remap_window X moff e pos mo ms :
+  moff + pos <= e -> e <= mo + ms -> mo + ms <= length X -> mo <= moff + pos ->
+  let db := moff + pos in
+  skipn (db - mo) (firstn ms (skipn mo X)) = skipn pos (seg X moff e) ++ seg X e (mo + ms) /\
+  skipn e X = seg X e (mo + ms) ++ skipn (mo + ms) X.
+Proof.
+  intros H1 H2 H3 H4 db.
+  replace (firstn ms (skipn mo X)) with (seg X mo (mo + ms)) by (unfold seg; f_equal; lia).
+  rewrite !skipn_seg. replace (mo + (db - mo)) with db by (unfold db; lia). fold db.
+  split.
+  - apply seg_app; unfold db; lia.
+  - rewrite <- (seg_to_end X e), <- (seg_to_end X (mo + ms)). apply seg_app; lia.
+Qed.
+
+Lemma mmap_shift_spec s : MInv s -> fp_at_end s = false ->
+  exists s' l, mmap_shift s = Ok s' /\ MInv s' /\ window s' = window s ++ l /\ up_m s = l ++ up_m s' /\
+    mu up_m s' < mu up_m s.
+Proof.
+  intros (Hfb & Hmp & Hp1 & Hpc & Hal & Hbuf & Hle & Hpos & Hend & Hnend) Hae.
+  destruct (Hnend Hae) as [Hlen Hlt]. clear Hend Hnend.
+  destruct (align_facts (fp_page s) (fp_moff s) (fp_pos s) Hp1 Hal) as (Hig & Higp & Hal' & Hadv).
+  unfold mmap_shift. rewrite Hmp, andb_true_r. unfold fp_mmap_grow.
+  set (ig := (fp_pos s + fp_moff s) mod fp_page s) in *.
+  set (cap' := if fp_pos s =? ig then fp_cap s * 2 else fp_cap s).
+  set (mo := fp_pos s + fp_moff s - ig) in *.
+  set (X := fp_file s) in *.
+  assert (Hcap' : fp_cap s <= cap') by (unfold cap'; destruct (fp_pos s =? ig); lia).
+  assert (Hmo : fp_moff s <= mo /\ mo <= fp_moff s + fp_pos s) by (unfold mo; lia).
+  (* the window end strictly advances unless the end of the file is reached *)
+  assert (Hprog : fp_moff s + fp_cap s < mo + cap').
+  { unfold cap'. destruct (Nat.eqb_spec (fp_pos s) ig) as [He|Hn].
+    - unfold mo. lia.
+    - specialize (Hadv Hn). unfold mo. lia. }
+  set (ms := if length X - mo <=? cap' then length X - mo else cap').
+  set (ae := if length X - mo <=? cap' then true else fp_at_end s).
+  assert (Hms : 1 <= ms /\ mo + ms <= length X /\ fp_moff s + fp_cap s <= mo + ms /\
+                (ae = true -> mo + ms = length X) /\ (ae = false -> ms = cap' /\ mo + cap' < length X) /\
+                (ae = false -> fp_moff s + fp_cap s < mo + ms)).
+  { unfold ms, ae. destruct (Nat.leb_spec (length X - mo) cap'); rewrite ?Hae; repeat split; try lia; try discriminate. }
+  destruct Hms as (Hms1 & Hms2 & Hms3 & Hms4 & Hms5 & Hms6).
+  replace (let '(at_end', mapped_size) := if length X - mo <=? cap' then (true, length X - mo) else (fp_at_end s, cap') in
+           if mapped_size =? 0 then _ else _) with
+    (Ok (mkFp (firstn ms (skipn mo X)) ig cap' ae mo false true (fp_rc s) (fp_os s) X (fp_page s) ((mo, ms) :: fp_maps s)) : res fp).
+  2:{ unfold ms, ae. destruct (Nat.leb_spec (length X - mo) cap').
+      - destruct (Nat.eqb_spec (length X - mo) 0); [lia|reflexivity].
+      - destruct (Nat.eqb_spec cap' 0); [lia|reflexivity]. }
+  destruct (remap_window X (fp_moff s) (fp_moff s + fp_cap s) (fp_pos s) mo ms) as [Hw Hu]; try lia.
+  replace (fp_moff s + fp_pos s - mo) with ig in Hw by (unfold mo; lia).
+  assert (Hblen : length (firstn ms (skipn mo X)) = ms) by (rewrite firstn_length, skipn_length; lia).
+  eexists _, (seg X (fp_moff s + fp_cap s) (mo + ms)). split; [reflexivity|].
+  split; [|split; [|split]].
+  - unfold MInv. cbn [fp_fallback fp_mapped fp_page fp_cap fp_moff fp_buf fp_file fp_pos fp_at_end].
+    rewrite Hblen. repeat split; auto; try lia.
+    unfold seg. f_equal. lia.
+  - unfold window. cbn [fp_pos fp_buf]. rewrite Hw. f_equal. rewrite Hbuf at 1. rewrite Hlen. reflexivity.
+  - unfold up_m. cbn [fp_moff fp_buf fp_file]. rewrite Hblen, Hlen. exact Hu.
+  - unfold mu, up_m. cbn [fp_moff fp_buf fp_file fp_at_end]. rewrite Hblen, Hlen, Hae.
+    rewrite !skipn_length. fold X. destruct ae eqn:Eae.
+    + specialize (Hms4 eq_refl). lia.
+    + specialize (Hms6 eq_refl). lia.
+Qed.
+
+Lemma MInv_shift s : MInv s -> fp_at_end s = false ->
+  exists s' l, shift s = Ok s' /\ MInv s' /\ window s' = window s ++ l /\ up_m s = l ++ up_m s' /\
+    mu up_m s' < mu up_m s.
+Proof.
+  intros HI Hae. destruct (mmap_shift_spec s HI Hae) as (s' & l & E & HI' & R).
+  exists s', l. split; [|split; [exact HI'|exact R]].
+  unfold shift. rewrite Hae. destruct HI as (Hfb & _). rewrite Hfb, E.
+  destruct HI' as (Hfb' & _). rewrite Hfb'. reflexivity.
+Qed.
+
+Lemma MInv_pos s : MInv s -> fp_pos s <= length (fp_buf s).
+Proof. intros H. apply H. Qed.
+Lemma MInv_end s : MInv s -> fp_at_end s = true -> up_m s = [].
+Proof.
+  intros (_ & _ & _ & _ & _ & _ & _ & _ & He & _) Hae. unfold up_m. rewrite (He Hae). apply skipn_all.
+Qed.
+Lemma MInv_setpos s p : MInv s -> fp_pos s <= p <= length (fp_buf s) -> MInv (set_pos s p).
+Proof. intros H Hp. unfold MInv, set_pos in *. simpl. intuition lia. Qed.
+Lemma up_m_setpos s p : up_m (set_pos s p) = up_m s.
+Proof. reflexivity. Qed.
+Lemma MInv_fuel s : MInv s -> mu up_m s < line_fuel s.
+Proof.
+  intros _. unfold mu, line_fuel, pending, up_m, rc_magic_size. rewrite skipn_length.
+  destruct (fp_rc s), (fp_at_end s); simpl; lia.
+Qed.
+
+(* rest of an mmap state = the file from the read position on *)
+Lemma MInv_rest s : MInv s -> rest up_m s = skipn (fp_moff s + fp_pos s) (fp_file s).
+Proof.
+  intros (_ & _ & _ & _ & _ & Hbuf & Hle & Hpos & _). unfold rest, window, up_m.
+  rewrite Hbuf at 1. rewrite skipn_seg.
+  rewrite <- (seg_to_end (fp_file s) (fp_moff s + length (fp_buf s))), <- (seg_to_end (fp_file s) (fp_moff s + fp_pos s)).
+  symmetry. apply seg_app; lia.
+Qed.
+
+(* Either back end: the invariant a FilePiece on a regular file can be in *)
+Definition FInv (s : fp) : Prop := MInv s \/ RInv s.
+Definition up_f (s : fp) : list Z := if fp_fallback s then up_r s else up_m s.
+
+Lemma FInv_pos s : FInv s -> fp_pos s <= length (fp_buf s).
+Proof. intros [H|H]; apply H. Qed.
+Lemma FInv_end s : FInv s -> fp_at_end s = true -> up_f s = [].
+Proof.
+  intros [H|H] Hae; unfold up_f.
+  - destruct H as (Hfb & R). rewrite Hfb. apply MInv_end; [|exact Hae]. split; assumption.
+  - destruct H as (Hfb & R). rewrite Hfb. apply RInv_end; [|exact Hae]. split; assumption.
+Qed.
+Lemma FInv_setpos s p : FInv s -> fp_pos s <= p <= length (fp_buf s) -> FInv (set_pos s p).
+Proof. intros [H|H] Hp; [left; apply MInv_setpos|right; apply RInv_setpos]; assumption. Qed.
+Lemma up_f_setpos s p : up_f (set_pos s p) = up_f s.
+Proof. reflexivity. Qed.
+Lemma FInv_shift s : FInv s -> fp_at_end s = false ->
+  exists s' l, shift s = Ok s' /\ FInv s' /\ window s' = window s ++ l /\ up_f s = l ++ up_f s' /\
+    mu up_f s' < mu up_f s.
+Proof.
+  intros [H|H] Hae.
+  - destruct (MInv_shift s H Hae) as (s' & l & E & HI' & Hw & Hu & Hm).
+    exists s', l. unfold mu, up_f in *. destruct H as (Hfb & _). pose proof HI' as (Hfb' & _).
+    rewrite Hfb, Hfb'. repeat split; auto. left. exact HI'.
+  - destruct (RInv_shift s H Hae) as (s' & l & E & HI' & Hw & Hu & Hm).
+    exists s', l. unfold mu, up_f in *. destruct H as (Hfb & _). pose proof HI' as (Hfb' & _).
+    rewrite Hfb, Hfb'. repeat split; auto. right. exact HI'.
+Qed.
+Lemma FInv_fuel s : FInv s -> mu up_f s < line_fuel s.
+Proof.
+  intros [H|H]; unfold mu, up_f.
+  - pose proof (MInv_fuel s H) as F. destruct H as (Hfb & _). rewrite Hfb. exact F.
+  - pose proof (RInv_fuel s H) as F. destruct H as (Hfb & _). rewrite Hfb. exact F.
+Qed.
+
+(* opening a regular file whose descriptor stands at offset off *)
+Lemma fp_open_file_spec page cap file off script :
+  1 <= page -> page <= cap -> off <= length file -> no_err script = true ->
+  detect_magic (skipn off file) = false ->
+  exists s, fp_open_file page cap file off script = Ok s /\ FInv s /\ rest up_f s = skipn off file.
+Proof.
+  intros Hp Hpc Hoff Hne Hm. unfold fp_open_file, shift. cbn [fp_at_end fp_fallback].
+  unfold mmap_shift. cbn [fp_pos fp_moff fp_page fp_mapped fp_cap fp_file fp_at_end fp_os fp_rc fp_maps].
+  rewrite andb_false_r. rewrite Nat.add_0_l.
+  set (ig := off mod page). set (mo := off - ig).
+  assert (Hig : ig < page) by (apply Nat.mod_upper_bound; lia).
+  assert (Higo : ig <= off) by (apply Nat.mod_le; lia).
+  assert (Hmoal : mo mod page = 0).
+  { unfold mo, ig. pose proof (Nat.div_mod off page).
+    replace (off - off mod page) with ((off / page) * page) by lia. apply Nat.mod_mul. lia. }
+  destruct (Nat.leb_spec (length file - mo) cap) as [Hsmall|Hbig].
+  - destruct (Nat.eqb_spec (length file - mo) 0) as [Hz|Hnz].
+    + (* mmap of 0 bytes fails: nothing is left, fall back to read() *)
+      assert (Hoffl : off = length file) by (unfold mo in *; lia).
+      assert (Hsrc : forall o1, o1 = (if off =? 0 then os_init (skipn off file) script
+                                    else mkOs (skipn off file) (os_script (os_init (skipn off file) script))
+                                              (os_trace (os_init (skipn off file) script)) (os_sink (os_init (skipn off file) script))) ->
+                     os_src o1 = [] /\ no_err (os_script o1) = true).
+      { intros o1 ->. destruct (off =? 0); simpl; rewrite Hoffl, skipn_all; auto. }
+      match goal with |- context [transition_to_read ?st] => set (st0 := st) end.
+      unfold transition_to_read. cbn [fp_os st0].
+      match goal with |- context [read_factory ?o] => destruct (Hsrc o eq_refl) as [Hs0 Hn0]; set (o1 := o) in * end.
+      destruct (read_factory_spec o1 Hn0) as (rc & o' & E & Hpd & Hwf & Hne').
+      { rewrite Hs0. reflexivity. }
+      rewrite E. cbn [fp_cap fp_at_end fp_moff fp_mapped fp_file fp_page fp_maps fp_fallback].
+      match goal with |- context [read_shift ?st] => set (s1 := st) end.
+      assert (HI1 : RInv s1).
+      { unfold RInv, s1. simpl. repeat split; auto; try lia; try discriminate. }
+      destruct (read_shift_spec s1 HI1 eq_refl) as (s' & l & Es & HI' & Hw & Hup & _).
+      rewrite Es. pose proof HI' as (Hfb' & _). rewrite Hfb'. simpl negb. cbn [andb].
+      exists s'. split; [reflexivity|]. split; [right; exact HI'|].
+      unfold rest, up_f. rewrite Hfb', Hw. unfold window at 1, s1 at 1 2. simpl skipn. simpl app.
+      rewrite <- Hup. unfold up_r, s1. cbn [fp_rc fp_os]. rewrite Hpd, Hs0, Hoffl, skipn_all. reflexivity.
+    + (* the first window reaches the end of the file *)
+      set (s1 := mkFp (firstn (length file - mo) (skipn mo file)) ig cap true mo false true RcFd
+                      (os_init (skipn off file) script) file page [(mo, length file - mo)]).
+      assert (Hbl : length (fp_buf s1) = length file - mo).
+      { unfold s1. cbn [fp_buf]. rewrite firstn_length, skipn_length. lia. }
+      assert (HI1 : MInv s1).
+      { unfold MInv. rewrite Hbl. unfold s1. cbn [fp_fallback fp_mapped fp_page fp_cap fp_moff fp_buf fp_file fp_pos fp_at_end].
+        repeat split; auto; try lia; try discriminate; try (unfold seg; f_equal; lia); try (unfold mo; lia). }
+      fold s1. change (fp_fallback s1) with false. cbv iota. simpl negb. rewrite andb_true_l.
+      assert (Hrest : rest up_m s1 = skipn off file).
+      { rewrite (MInv_rest s1 HI1). unfold s1. cbn [fp_moff fp_pos fp_file]. f_equal. unfold mo. lia. }
+      assert (Hwin : window s1 = skipn off file).
+      { rewrite <- Hrest. unfold rest. rewrite (MInv_end s1 HI1 eq_refl). symmetry. apply app_nil_r. }
+      change (skipn (fp_pos s1) (fp_buf s1)) with (window s1). rewrite Hwin.
+      rewrite detect_magic_firstn, Hm, andb_false_r.
+      exists s1. split; [reflexivity|]. split; [left; exact HI1|].
+      unfold up_f. exact Hrest.
+  - destruct (Nat.eqb_spec cap 0) as [Hz|Hnz]; [lia|].
+    set (s1 := mkFp (firstn cap (skipn mo file)) ig cap false mo false true RcFd
+                    (os_init (skipn off file) script) file page [(mo, cap)]).
+    assert (Hbl : length (fp_buf s1) = cap).
+    { unfold s1. cbn [fp_buf]. rewrite firstn_length, skipn_length. lia. }
+    assert (HI1 : MInv s1).
+    { unfold MInv. rewrite Hbl. unfold s1. cbn [fp_fallback fp_mapped fp_page fp_cap fp_moff fp_buf fp_file fp_pos fp_at_end].
+      repeat split; auto; try lia; try discriminate; try (unfold seg; f_equal; lia); try (unfold mo; lia). }
+    fold s1. change (fp_fallback s1) with false. cbv iota.
+    assert (Hrest : rest up_m s1 = skipn off file).
+    { rewrite (MInv_rest s1 HI1). unfold s1. cbn [fp_moff fp_pos fp_file]. f_equal. unfold mo. lia. }
+    assert (Hmagic : (rc_magic_size <=? length (fp_buf s1) - fp_pos s1) &&
+                     detect_magic (firstn rc_magic_size (skipn (fp_pos s1) (fp_buf s1))) = false).
+    { destruct (Nat.leb_spec rc_magic_size (length (fp_buf s1) - fp_pos s1)) as [Hge|Hlt]; [|reflexivity].
+      rewrite andb_true_l. change (skipn (fp_pos s1) (fp_buf s1)) with (window s1).
+      assert (Hpre : firstn rc_magic_size (window s1) = firstn rc_magic_size (skipn off file)).
+      { rewrite <- Hrest. unfold rest. rewrite firstn_app.
+        assert (length (window s1) = length (fp_buf s1) - fp_pos s1) by (unfold window; apply skipn_length).
+        replace (rc_magic_size - length (window s1)) with 0 by lia. simpl. rewrite app_nil_r. reflexivity. }
+      rewrite Hpre, detect_magic_firstn. exact Hm. }
+    simpl negb. rewrite andb_true_l. rewrite Hmagic.
+    exists s1. split; [reflexivity|]. split; [left; exact HI1|]. unfold up_f. exact Hrest.
+Qed.
+
+(* the main theorem of the mmap path (with the fall back to read() when mmap refuses) *)
+Theorem file_path_records page cap file off script d cr :
+  1 <= page -> page <= cap -> off <= length file -> no_err script = true ->
+  detect_magic (skipn off file) = false ->
+  exists s sf, fp_open_file page cap file off script = Ok s /\
+    read_all d cr s = (Ok (records d cr (skipn off file)), sf) /\
+    (forall d' cr', read_line d' cr' sf = (RlEOF, sf)).
+Proof.
+  intros Hp Hpc Hoff Hne Hm.
+  destruct (fp_open_file_spec page cap file off script Hp Hpc Hoff Hne Hm) as (s & E & HI & Hr).
+  exists s.
+  destruct (read_all_loop_spec FInv up_f FInv_pos FInv_end FInv_setpos up_f_setpos FInv_shift FInv_fuel
+              (pending s + length (fp_buf s) + 2) d cr s HI) as (sf & Ea & HIf & Hrf & Hef).
+  { destruct HI as [HI|HI].
+    - pose proof HI as (Hfb & _).
+      assert (Hrm : rest up_f s = rest up_m s) by (unfold rest, up_f; rewrite Hfb; reflexivity).
+      rewrite Hrm, (MInv_rest s HI).
+      unfold pending. rewrite skipn_length. lia.
+    - pose proof HI as (Hfb & _).
+      assert (Hrm : rest up_f s = rest up_r s) by (unfold rest, up_f; rewrite Hfb; reflexivity).
+      rewrite Hrm.
+      unfold rest, window, pending, up_r, rc_pending. rewrite !app_length, skipn_length.
+      destruct (fp_rc s); simpl; lia. }
+  exists sf. split; [exact E|]. split.
+  - unfold read_all. rewrite Ea, Hr. reflexivity.
+  - intros d' cr'. unfold read_line, line_fuel. rewrite Nat.add_succ_r.
+    apply (read_line_at_eof FInv up_f FInv_pos FInv_end FInv_setpos up_f_setpos FInv_shift); assumption.
+Qed.
+
+(* the window the constructor computes is always admissible *)
+Lemma initial_cap_ok page min_buffer : 1 <= page -> page <= initial_cap page min_buffer /\ 1 <= initial_cap page min_buffer.
+Proof. intros H. unfold initial_cap, fp_init_add, fp_init_min_pages. nia. Qed.
